@@ -2,6 +2,7 @@ package catalog
 
 import (
 	"encoding/json"
+	"fmt"
 	"sync"
 
 	"github.com/jsightapi/jsight-schema-core/bytes"
@@ -28,10 +29,45 @@ func (e ExchangeRegexSchema) Example() ([]byte, error) {
 		return e.RSchema.Example()
 	}
 	e.example.once.Do(func() {
+		defer func() {
+			if r := recover(); r != nil { // the generator panics on what it cannot express
+				e.example.err = regexExampleError(r)
+			}
+		}()
 		ex, err := e.RSchema.Example()
 		e.example.value, e.example.err = append([]byte(nil), ex...), err
 	})
 	return e.example.value, e.example.err
+}
+
+// Check reports an invalid pattern and a pattern for which no example can be generated.
+func (e ExchangeRegexSchema) Check() error {
+	if err := e.RSchema.Check(); err != nil {
+		return err
+	}
+	return CheckRegexExamples(e.RSchema)
+}
+
+func regexExampleError(r interface{}) error {
+	return fmt.Errorf("an example cannot be generated for this regular expression (%v)", r)
+}
+
+// CheckRegexExamples reports a pattern the example generator cannot handle: it panics e.g.
+// on a character class that holds no printable ASCII character (/[^\x00-\x7F]/). The
+// examples are drawn from a schema of its own, so those of s are not consumed.
+func CheckRegexExamples(s *regex.RSchema) (err error) {
+	defer func() {
+		if r := recover(); r != nil {
+			err = regexExampleError(r)
+		}
+	}()
+	probe := regex.FromFile(s.File)
+	for i := 0; i < 3; i++ {
+		if _, e := probe.Example(); e != nil {
+			return nil // an invalid pattern is reported by Check
+		}
+	}
+	return nil
 }
 
 func (e ExchangeRegexSchema) MarshalJSON() ([]byte, error) {
